@@ -15,7 +15,11 @@ Failed(o) ==
           (IF o.out = exp THEN {} ELSE {"result"})
      \cup (IF o.unchanged THEN {} ELSE {"inputsChanged"})
      \cup (IF o.genFailed = GenerationFails(exp) THEN {} ELSE {"generationFails"})
-     \cup (IF ~o.genFailed /\ ~GenerationFails(exp) /\ o.certExts # exp THEN {"certExtensions"} ELSE {})
+     \* observations of real extension types carry only the OID of each certificate extension ("?" as body)
+     \cup (IF ~o.genFailed /\ ~GenerationFails(exp)
+              /\ [k \in DOMAIN o.certExts |-> o.certExts[k].oid] # [k \in DOMAIN exp |-> exp[k].oid] THEN {"certExtensionOids"} ELSE {})
+     \cup (IF ~o.genFailed /\ ~GenerationFails(exp) /\ (\A k \in DOMAIN o.certExts : o.certExts[k].body # "?") /\ o.certExts # exp
+           THEN {"certExtensions"} ELSE {})
 
 Bad == {k \in DOMAIN T : Failed(T[k]) # {}}
 
